@@ -62,8 +62,8 @@ class _Sub:
 
 _PER = {'quick': {'c01': 3, 'c05': 4, 'c06': 3, 'c07': 2, 'hostile': 12,
                   'c04': 4, 'mat': 6},
-        'thorough': {'c01': 150, 'c05': 200, 'c06': 120, 'c07': 100,
-                     'hostile': 500, 'c04': 150, 'mat': 150}}
+        'thorough': {'c01': 450, 'c05': 600, 'c06': 360, 'c07': 300,
+                     'hostile': 1500, 'c04': 450, 'mat': 450}}
 FLAGS = ['--skip-deduplication', '--skip-compositions', '--skip-geomcomp',
          '--skip-boundary-conditions', '--always-inline-filling',
          '--always-inline-filled']
